@@ -1,9 +1,31 @@
-//! C35: `c35name <hex a> <hex b>` -> `<hex of Name::from(a).to_string()>:<1|0 Name::from(a) == Name::from(b)>`
+//! C35: `c35pair …` (see `pair`), `c35name <hex a> <hex b>` -> `<hex of Name::from(a).to_string()>:<1|0 Name::from(a) == Name::from(b)>`
 //! (the public `rsass::sass::Name`, sass/name.rs).
 use crate::util::*;
 use rsass::sass::Name;
 
+/// `c35pair <style> <precision> <hex original> <hex rewritten> [<files of the rewritten source>]`
+/// -> `<result of the original>\t<result of the rewritten source>` (each `ok:<hex>` | `err:<hex>` | `panic`)
+fn pair(f: &[&str]) -> Option<String> {
+    if f.len() < 4 {
+        return Some("bad-args".into());
+    }
+    let fmt = format(f[0], f[1]);
+    let one = |src: Vec<u8>, files: &str| {
+        let loader = MemLoader::new(parse_files(files));
+        std::panic::catch_unwind(move || {
+            compile_mem("scss", fmt, "in.scss", &src, loader).line()
+        })
+        .unwrap_or_else(|_| "panic".to_string())
+    };
+    let a = one(unhex(f[2]), "");
+    let b = one(unhex(f[3]), f.get(4).copied().unwrap_or(""));
+    Some(format!("{a}\t{b}"))
+}
+
 pub fn run(op: &str, f: &[&str]) -> Option<String> {
+    if op == "c35pair" {
+        return pair(f);
+    }
     if op != "c35name" {
         return None;
     }
